@@ -37,6 +37,11 @@ func SharedRun(w *World, rng *rand.Rand, ty string, ch, roFrames, wFrames, R, W,
 	old := runtime.GOMAXPROCS(procs)
 	defer runtime.GOMAXPROCS(old)
 	w.Reset()
+	// From here to the final Observe nothing but the scripted calls touches the views: the harness does not
+	// project them (a projection calls BitDepth(), Len(), ... and could initialise lazily computed state before
+	// the goroutines start, hiding a race on it).
+	w.NoObs = true
+	defer func() { w.NoObs = false }()
 	total := roFrames + W*wFrames
 	root := w.filledRoot(ty, ch, total)
 	w.Slice(root, 0, roFrames)
@@ -169,6 +174,7 @@ func SharedRun(w *World, rng *rand.Rand, ty string, ch, roFrames, wFrames, R, W,
 	if len(w.Views) != nviews {
 		panic(harnessBug("views changed during the concurrent phase"))
 	}
+	w.NoObs = false
 	w.Observe()
 }
 
